@@ -168,6 +168,23 @@ def tokens (line : String) : List String := (line.splitOn " ").filter (· ≠ ""
 
 def parse (line : String) : Option J := parseToks (tokens line)
 
+/-! ### canonical member order (JSON objects are unordered: drivers print message objects with
+their members sorted by name, one level down as well, and the harness does the same) -/
+
+def insertKV (kv : Str × J) : List (Str × J) → List (Str × J)
+  | [] => [kv]
+  | x :: r => if strLt x.1 kv.1 then x :: insertKV kv r else kv :: x :: r
+
+def sortKVs (kvs : List (Str × J)) : List (Str × J) := kvs.foldr insertKV []
+
+/-- sort the members of a message object and of its object-valued members -/
+def canonMsg : J → J
+  | .obj kvs => .obj (sortKVs (kvs.map fun (k, v) =>
+      match v with
+      | .obj e => (k, .obj (sortKVs e))
+      | _ => (k, v)))
+  | v => v
+
 private def sample : J :=
   .obj [(lit "a", .arr [.int (-12), .float (.fin 3 (-1)), .float .negZero, .float .nan,
                         .float (.inf true), .str [0xd800, 0x10ffff, 10], .str [], .null]),
@@ -177,6 +194,8 @@ private def sample : J :=
 #guard parse (showJ sample) == some sample
 #guard showJ (.arr [.int 1, .str (lit "ab"), .obj [(lit "k", .bool false)]]) == "[3 i1 s61.62 {1 s6b f"
 #guard parse "[1 [2 d1p0 [2 [0 f" == some (.arr [.arr [.float (.fin 1 0), .arr [.arr [], .bool false]]])
+#guard showJ (canonMsg (.obj [(lit "b", .null), (lit "a", .obj [(lit "z", .null), (lit "y", .null)])]))
+  == "{2 s61 {2 s79 n s7a n s62 n"
 #guard parse "[1 n n" == none
 #guard parse "s61." == none
 #guard parse "i-5" == some (.int (-5))
